@@ -8,6 +8,7 @@ from engine.model import src, stmt_key, walk_no_nested, dotted
 from engine.util import attr_accesses, with_exprs, calls_with_nodes, where, own_nodes
 
 RULES = {
+    "R-12.9": "readers never observe a partially applied (or rolled back) write on a B-tree zone: the writer edits a copy-on-write clone and never writes a node it shares with a published version (C19 R-19.1 adopted)",
     "R-12.8": "a `with zone.writer()` block always ends its transaction: Transaction.__exit__ commits iff no exception, otherwise rolls back - for every exception class (C10 R-10.4 adopted), so the write slot is released and the next waiter woken",
     "R-12.7": "inside the package a write transaction obtained from `.writer(...)` is entered by `with` at once, or kept on an object whose __exit__ ends it; when it is first bound to a local, no `raise`/`return` is reachable between the call and the `with` that ends it (the slot would stay taken and every later writer block for ever)",
     "R-12.6": "a B-tree zone writer starts from the newest committed version (C20 R-20.2 newest-base adopted): otherwise the final zone is not the serial application of the commits in admission order",
@@ -281,6 +282,7 @@ def run(model, rep, tier):
                           (f"after `{L} = {src(c)}` the function can leave through `{src(leaks[0].ast)[:50]}` (line {leaks[0].lineno}) without entering `with {L}`: the zone's write slot stays taken and every later writer waits for ever"
                            if leaks and leaks[0].ast is not None else f"`{L}` is never entered by `with` on some path"), stmt="writer-local " + L)
     rep.floor("R-12.7", n_w, 5)
+    rep.share(model, "C19", {"R-19.1"}, "R-12.9", "btreezone.WritableVersion clones version.nodes and version.delegations; readers keep using the originals while the writer runs")
     rep.share(model, "C10", {"R-10.4"}, "R-12.8", "versioned.Zone._end_write (slot release and wake-up) runs only from Transaction._end, reached from __exit__/commit/rollback")
     rep.meta["explanation"] = (
         "Guarded-by analysis over the whole package for the six admission/retention fields of dns.versioned.Zone, call-site check of the "
